@@ -220,7 +220,9 @@ func (cli *Client) handshake(c diam.Conn) (diam.Conn, error) {
 		dwac = make(chan struct{}, 1)
 		cli.Handler.mux.Handle("DWA", handshakeOK(handleDWA(cli.Handler, dwac)))
 	}
-	for i := 0; i < (int(cli.MaxRetransmits) + 1); i++ {
+	// MaxRetransmits+1 transmissions. Counted as uint: int(MaxRetransmits)+1
+	// is zero or negative for budgets near the top of the type.
+	for i := uint(0); i <= cli.MaxRetransmits; i++ {
 		_, err := m.WriteTo(c)
 		if err != nil {
 			c.Close()
@@ -303,7 +305,9 @@ func (cli *Client) dwr(c diam.Conn, osid uint32, dwac chan struct{}) {
 	case <-dwac:
 	default:
 	}
-	for i := 0; i < (int(cli.MaxRetransmits) + 1); i++ {
+	// MaxRetransmits+1 transmissions. Counted as uint: int(MaxRetransmits)+1
+	// is zero or negative for budgets near the top of the type.
+	for i := uint(0); i <= cli.MaxRetransmits; i++ {
 		_, err := m.WriteToStream(c, cli.WatchdogStream)
 		if err != nil {
 			return
